@@ -72,6 +72,7 @@ def main(run):
             "sdl": ("graphql", render_sdl(schema), True),
             "sdl-ext": (rng.choice(["graphqls", "gql"]), render_sdl(schema, rng, extend=True, comments=True, multiline=False), True),
             "sdl-builtins": ("graphql", render_sdl(schema, declare_builtins=True), True),
+            "sdl-directives": ("graphql", render_sdl(schema, rng, tags=True), True),
             "json": ("json", render_json(schema), True),
             "json-data-meta": ("json", render_json(schema, wrapped=True, builtins="all", rng=rng, indent=1), True),
             "json-sparse": ("json", render_json(schema, sparse=True, builtins="scalars"), True),
